@@ -128,7 +128,8 @@ FAULTS = ['ValueError', 'KeyError', 'ZeroDivisionError', 'RecursionError', 'Memo
           'UnicodeDecodeError', 'IndexError', 'AttributeError', 'code-in-message', 'BadStr', 'return-hostile', 'return-error', 'return-nan', 'Exception-subclass',
           'XL#NULL!', 'XL#DIV/0!', 'XL#VALUE!', 'XL#REF!', 'XL#NAME?', 'XL#NUM!', 'XL#N/A', 'XL#GETTING_DATA', 'XL#ERROR!',
           'ownXL:#CIRCULAR!', 'ownXL:', 'ownXL:two-args', 'ownXL:no-args', 'ownXL:#N/A', 'ownXL:badstr', 'return-ownXL:#CIRCULAR!', 'return-ownXL:two-args',
-          'chain:self-cause', 'chain:two-cycle', 'chain:ownXL-from-itself', 'chain:long', 'chain:context-cycle']
+          'chain:self-cause', 'chain:two-cycle', 'chain:ownXL-from-itself', 'chain:long', 'chain:context-cycle',
+          'odd:unhashable', 'odd:frozen', 'odd:setattr-raises', 'odd:eq-raises', 'odd:slots', 'odd:unhashable-ownXL', 'odd:hash-raises', 'odd:getattr-raises', 'odd:bool-raises']
 
 
 class Fault(BaseException):
@@ -140,7 +141,7 @@ class Check(BaseCheck):
     TITLE = 'parse() is total: it always returns a well-formed result/error record'
     TECHNIQUE = 'icontract post-condition on Parser.parse + escape recorder + sys.monitoring step budget under hostile string/argument/fault workloads'
     RULE = ('case = one parse() call: (1) token soup, mutated valid formula or arbitrary Unicode string (incl. surrogates and 10 kB inputs); (2) one supported function at '
-            'arity 0,1,2 over every tuple of an 85-value pool of every type (spreadsheet values, error objects incl. host-built ones, and the Python types a host has lying around: date, time, timedelta, Decimal, Fraction, Enum, str/float subclasses, sets, deque, iterators, bytes-likes, callables) (exhaustive in the thorough tier; quick: all pairs of a 26-value core of every type plus sampled pairs) and sampled arity 3,4; (3) one formula with a fault (30 exception classes incl. cyclic and 3000-long cause chains / hostile '
+            'arity 0,1,2 over every tuple of an 85-value pool of every type (spreadsheet values, error objects incl. host-built ones, and the Python types a host has lying around: date, time, timedelta, Decimal, Fraction, Enum, str/float subclasses, sets, deque, iterators, bytes-likes, callables) (exhaustive in the thorough tier; quick: all pairs of a 26-value core of every type plus sampled pairs) and sampled arity 3,4; (3) one formula with a fault (39 exception classes incl. cyclic and 3000-long cause chains and exception objects with a hostile protocol (unhashable, frozen, raising __setattr__/__eq__/__hash__) / hostile '
             'return values) injected at one host-callback invocation, every invocation point x every fault class; (4) the repository\'s tests re-run under the contract. '
             'non-trivial = the evaluation reached at least one grammar action (reduction probe) and the three oracles were evaluated; distinct = distinct (formula, bindings class).')
     ASSUMPTIONS = ('BaseExceptions that are not Exceptions (KeyboardInterrupt, SystemExit, GeneratorExit) are control flow the host asks for and are not injected',
@@ -408,6 +409,33 @@ class Check(BaseCheck):
             obj = {'#CIRCULAR!': lambda: XL('#CIRCULAR!'), '': lambda: XL(''), 'two-args': lambda: XL('#N/A', 'detail'), 'no-args': lambda: XL(), '#N/A': lambda: XL('#N/A'),
                    'badstr': lambda: type('BadXL', (XL,), {'__str__': lambda self: 1 / 0})('x')}[what]()
             return ('return' if name.startswith('return') else 'raise', obj)
+        if name.startswith('odd:'):
+            # exception objects whose own protocol is unusual: unhashable (any @dataclass exception), frozen, refusing setattr, raising in __eq__ ...
+            import dataclasses
+            what = name.split(':', 1)[1]
+            XL = hx.errors().XLError
+
+            def boom(*a, **k):
+                raise RuntimeError('protocol')
+            if what == 'unhashable':
+                obj = dataclasses.dataclass(type('HostErr', (Exception,), {'__annotations__': {'code': int}, 'code': 1}))()
+            elif what == 'frozen':
+                obj = dataclasses.dataclass(frozen=True)(type('FrozenErr', (Exception,), {'__annotations__': {'code': int}, 'code': 1}))()
+            elif what == 'setattr-raises':
+                obj = type('NoSet', (Exception,), {'__setattr__': boom})('x')
+            elif what == 'eq-raises':
+                obj = type('NoEq', (Exception,), {'__eq__': boom, '__hash__': lambda self: 1})('x')
+            elif what == 'slots':
+                obj = type('Slotted', (Exception,), {'__slots__': ()})('x')
+            elif what == 'unhashable-ownXL':
+                obj = type('UnhashXL', (XL,), {'__eq__': lambda self, o: self is o, '__hash__': None})('#N/A')
+            elif what == 'hash-raises':
+                obj = type('NoHash', (Exception,), {'__hash__': boom})('x')
+            elif what == 'getattr-raises':
+                obj = type('NoGet', (Exception,), {'__getattr__': boom})('x')
+            else:
+                obj = type('NoBool', (Exception,), {'__bool__': boom, '__len__': boom})('x')
+            return ('raise', obj)
         if name.startswith('chain:'):
             # exceptions whose __cause__/__context__ chain is cyclic or very long (raise err from err; two errors naming each other)
             what = name.split(':', 1)[1]
